@@ -1610,18 +1610,27 @@ fn do_claim(s: &mut Incent, ctx: &mut Ctx, before: &Obs, actor: usize, fault: Fa
                 let t = s.model.paid_fe.entry((fb.id, e)).or_insert(0);
                 *t = t.saturating_add(pf128);
                 if *t > em {
-                    let rep: Vec<&'static str> = s.model.ep.reported.iter().copied().collect();
-                    let known = if rep.len() == 1 {
-                        Some(match rep[0] {
-                            "closed_before_snapshot" => "D10",
-                            "stale_weight_history" => "D11",
-                            "global_lt_sum_of_weights" => "D9",
-                            _ => "N5",
-                        })
-                    } else {
+                    // Every single claim is checked exactly against emission x history weight / snapshot
+                    // (claim_reference), and check_shares decomposes exactly why the history weights of
+                    // an epoch exceed its snapshot. An epoch paying out more than its emission is the
+                    // consequence of those causes; N5 only concerns what the share query reports, not
+                    // what claims use. A cause that is not a listed finding wins (-> violation).
+                    let stale_unexplained = s.model.stale_unexplained;
+                    let ids: Vec<&'static str> = s.model.ep.reported.iter().filter_map(|c| match *c {
+                        "closed_before_snapshot" => Some("D10"),
+                        "stale_weight_history" => Some(if stale_unexplained { "" } else { "D11" }),
+                        "global_lt_sum_of_weights" => Some("D9"),
+                        _ => None,
+                    }).collect();
+                    let known = if ids.contains(&"") || ids.is_empty() {
                         None
+                    } else if ids.contains(&"D9") {
+                        Some("D9")
+                    } else if ids.contains(&"D10") {
+                        Some("D10")
+                    } else {
+                        Some("D11")
                     };
-                    let known = if known == Some("N5") { None } else { known };
                     ctx.fail("C13", "epoch_payout_le_emission", if known.is_some() { "shares_gt_100" } else { op }, known,
                         format!("flow {} epoch {e}: claims paid {} in total, the epoch's emission is {em}", fb.id, *t));
                 }
